@@ -22,7 +22,7 @@ TraceFile == IOEnv.ORB_TRACE
 Trace == ndJsonDeserialize(TraceFile)
 
 \* which property predicates this run evaluates (driver passes a comma-less list via env)
-PropIds == {"C01", "C02", "C03", "C04", "C05", "C08", "C09", "C10", "C11", "C12", "C17", "C18"}
+PropIds == {"C01", "C02", "C03", "C04", "C05", "C06", "C08", "C09", "C10", "C11", "C12", "C17", "C18"}
 
 -----------------------------------------------------------------------------
 (* JSON -> specification values                                            *)
@@ -57,6 +57,9 @@ FullReq(ev) == ev.obs.req # <<>> /\ \A i \in DOMAIN ev.obs.req : ev.obs.req[i].f
 
 AmtIn(list, d) == LET m == SelectSeq(list, LAMBDA e : e.d = d) IN IF m = <<>> THEN 0 ELSE m[1].a
 OrbUp(ev) == \E i \in DOMAIN ev.obs.orbPost : ev.obs.orbPost[i].a > AmtIn(ev.obs.orbPre, ev.obs.orbPost[i].d)
+
+\* instrumented mode logs the coin each action saw and left
+HasTrace(ev) == ev.in.t = "recv" /\ "x" \in DOMAIN ev.obs /\ "perAction" \in DOMAIN ev.obs.x
 
 DummyOut == [ok |-> FALSE]
 JCtl(ev, name, pre0) ==
@@ -93,6 +96,13 @@ ToStep(ev) ==
        othersSame |-> ev.obs.othersPre = ev.obs.othersPost,
        fullReq |-> FullReq(ev),
        fired |-> ToSet(ev.obs.fired),
+       hasTrace |-> HasTrace(ev),
+       perAction |-> IF HasTrace(ev)
+                     THEN [i \in DOMAIN ev.obs.x.perAction |->
+                             LET a == ev.obs.x.perAction[i] IN
+                             [id |-> a.id, cin |-> [d |-> a.inDenom, n |-> a.inAmt],
+                              cout |-> [d |-> a.outDenom, n |-> a.outAmt], err |-> a.err]]
+                     ELSE <<>>,
        hasQ |-> ev.in.t = "admin",
        q |-> IF ev.in.t = "admin" THEN JQ(ev.obs.x) ELSE QueryView(post),
        x |-> IF ev.in.t = "reimport"
@@ -103,7 +113,7 @@ ToStep(ev) ==
 -----------------------------------------------------------------------------
 (* Conformance of the observed step with Apply, per variable group         *)
 
-Groups == {"ack", "bal", "supply", "pause", "params", "stats", "env", "req"}
+Groups == {"ack", "bal", "supply", "pause", "params", "stats", "env", "req", "fired", "actions"}
 
 Mismatch_(ev, S) ==
   LET exp == Apply(S.pre, ev.in)
@@ -118,13 +128,15 @@ Mismatch_(ev, S) ==
           [] g = "params" -> <<exp.st.maxPT, exp.st.hasParams>> # <<S.post.maxPT, S.post.hasParams>>
           [] g = "stats"  -> <<exp.st.amt, exp.st.cnt>> # <<S.post.amt, S.post.cnt>>
           [] g = "env"    -> exp.st.env # S.post.env
+          [] g = "fired"  -> exp.fired # S.fired
+          [] g = "actions" -> S.hasTrace /\ S.ok /\ exp.trace # S.perAction
           [] g = "req"    -> IF S.ok /\ ev.in.t = "recv"
                              THEN [i \in DOMAIN exp.req |-> Mask(exp.req[i], S.fullReq)] # [i \in DOMAIN S.req |-> Mask(S.req[i], S.fullReq)]
                              ELSE FALSE }
 
 PropHolds(c, S) ==
   CASE c = "C01" -> Prop_C01(S) [] c = "C02" -> Prop_C02(S) [] c = "C03" -> Prop_C03(S)
-    [] c = "C04" -> Prop_C04(S) [] c = "C05" -> Prop_C05(S) [] c = "C08" -> Prop_C08(S)
+    [] c = "C04" -> Prop_C04(S) [] c = "C05" -> Prop_C05(S) [] c = "C06" -> Prop_C06(S) [] c = "C08" -> Prop_C08(S)
     [] c = "C09" -> Prop_C09(S) [] c = "C10" -> Prop_C10(S) [] c = "C11" -> Prop_C11(S)
     [] c = "C12" -> Prop_C12(S) [] c = "C17" -> Prop_C17(S) [] c = "C18" -> Prop_C18(S)
     [] OTHER -> TRUE
@@ -132,10 +144,12 @@ PropHolds(c, S) ==
 \* antecedent flags: on which properties this step is a non-trivial evaluation
 Ante(S) ==
   {c \in PropIds :
-     CASE c \in {"C01", "C03"} -> IsRecv(S)
+     CASE c = "C01" -> IsRecv(S)
+       [] c = "C03" -> IsRecv(S) /\ (S.fired # {} \/ ~S.ok)
        [] c \in {"C02", "C12"} -> IsTransfer(S)
        [] c = "C04" -> HasFee(S)
        [] c = "C05" -> IsTransfer(S) \/ (IsOrbiterPacket(S) /\ S.in.mk = "PAYLOAD" /\ (Unrouted(S.in) \/ Mismatch(S.in)))
+       [] c = "C06" -> (HasActions(S) /\ S.hasTrace) \/ (IsOrbiterPacket(S) /\ S.in.mk = "PAYLOAD" /\ ParseOK(S.in) /\ RepeatsAction(S.in))
        [] c = "C08" -> (HasPayload(S) /\ (S.pre.pProto # {} \/ S.pre.pCC # {})) \/ IsPauseMsg(S)
        [] c = "C09" -> (HasPayload(S) /\ S.pre.pAct # {}) \/ (IsAdmin(S) /\ S.in.rpc \in ActionRpcs)
        [] c = "C10" -> IsAdmin(S)
